@@ -44,6 +44,10 @@ class Boom(Exception):
     pass
 
 
+class Abort(BaseException):
+    """a non-Exception error escaping a callback (like KeyboardInterrupt / asyncio.CancelledError)"""
+
+
 class CB:
     """recording callback; may cascade (action = ['set', name, vi]) and may be told to raise (fault injection)"""
 
@@ -66,7 +70,7 @@ class CB:
         w.log.append(('call', {'w': self.spec['id'], 'events': evs, 'seen': seen, 'k': w.ncalls}))
         if w.fault_calls and w.ncalls in w.fault_calls:
             w.faults_fired += 1
-            raise Boom('watcher call %d' % w.ncalls)
+            raise w.fault_exc('watcher call %d' % w.ncalls)
         act = self.spec.get('action')
         if act:
             setattr(target, act[1], w.vals[act[2]])
@@ -82,7 +86,7 @@ class World:
         self.vals = make_vals()
         ns = {'a': param.Parameter(default=self.vals[0]), 'b': param.Parameter(default=self.vals[0]),
               'n': param.Number(default=1, bounds=self.vals[B0]),
-              'k': param.Parameter(default=self.vals[0], constant=True)}
+              'k': param.Parameter(default=self.vals[0], constant=True), 'ro': param.Parameter(default=self.vals[0], readonly=True)}
         if event:
             ns['e'] = param.Event()
         self.cls = type('D', (param.Parameterized,), ns)
@@ -90,6 +94,7 @@ class World:
         self.log = []
         self.ncalls = 0
         self.fault_calls = set()
+        self.fault_exc = Boom
         self.faults_fired = 0
         self.stack = []          # open context managers (real objects)
         self.handles = {}
